@@ -126,7 +126,25 @@ func theHook(err error, p redact.SafePrinter, verb rune) {
 	p.SafeString("|")
 	p.UnsafeString("d" + strconv.Itoa(id))
 	p.SafeString(">")
+	// like real hooks (cockroachdb/errors), print the cause through the printer
+	if n, ok := err.(interface{ hookInner() error }); ok && n.hookInner() != nil {
+		if id%2 == 1 {
+			p.Print(n.hookInner())
+		} else {
+			p.Printf("%v", n.hookInner())
+		}
+	}
 }
+
+// hNestErr: an error of an uncomparable type (value receiver, slice field) whose cause the hook prints through its printer.
+type hNestErr struct {
+	hBase
+	tags  []string
+	inner error
+}
+
+func (e hNestErr) Error() string    { return e.can("ERR") }
+func (e hNestErr) hookInner() error { return e.inner }
 
 // hookTwin is the fmt-side stand-in of an error rendered by the hook.
 type hookTwin struct {
@@ -542,6 +560,7 @@ func runC17(c *Ctx) {
 		return
 	}
 	c17panicPayloads(c, hooked)
+	c17nestedCauses(c, hooked)
 	// product: class x shape x verb x flags x wp (+ panicking hook)
 	var cases []*c17case
 	id := 0
